@@ -23,6 +23,7 @@ var avoidable = []string{
 	"snapshot-of-list", "follower-needed-msgsnap", "restart-after-snapshot", "torn-wal-tail", "unsynced-wal-tail-lost",
 	"after-rconf-delete", "after-rconf-delete-highest-id", "after-rconf-add", "after-rconf-add-with-snapshot",
 	"concurrent-clients-one-node", "clients-on-several-nodes",
+	"ttl-command", "ttl-command-replayed-at-restart",
 }
 
 func knownClass(env *core.Env, class string) bool {
@@ -332,6 +333,10 @@ func prescreen(sc *Scenario) int {
 				}
 				progress = true
 				a := sc.Clients[ci].Cmds[pos[ci]].Args
+				if len(a) == 0 || touchesTTLKey(a) {
+					pos[ci]++ // idle stretches and time-dependent commands are not pre-screened
+					continue
+				}
 				if isMgmt(a) {
 					pos[ci]++ // management commands are not data commands: kept as they are
 					continue
@@ -461,8 +466,40 @@ func genC07(rng *core.Rand, env *core.Env, run int) *Scenario {
 		quiet := sc.Variant == "rconf" || sc.Variant == "fault-free" || sc.Variant == "snapshots"
 		sprinkleMgmt(r, sc, 1+r.Intn(4), quiet && len(sc.Faults.Kinds) == 0 && k.DropPM == 0 && r.Bool(0.3))
 	}
+	ttlShare(r, sc, av, ttlShareOf(env))
 	prescreen(sc)
 	return sc
+}
+
+func ttlShareOf(env *core.Env) float64 {
+	if env.Params["ttl"] == "1" {
+		return 1
+	}
+	return 0.15
+}
+
+// ttlShare turns a share of the runs into runs whose clients also issue
+// time-dependent commands on keys of their own, with idle stretches.
+func ttlShare(r *core.Rand, sc *Scenario, av avoidSet, share float64) {
+	if sc.Faults.Directed != "" || !r.Bool(share) || av["ttl-command"] || sc.Knobs.Databases > 1 {
+		return // (the reply oracle for deadlines knows one database)
+	}
+	crashes := false
+	for _, k := range sc.Faults.Kinds {
+		if strings.HasPrefix(k, "crash") {
+			crashes = true
+		}
+	}
+	if av["ttl-command-replayed-at-restart"] && (crashes || sc.Variant == "clean-restart") {
+		return
+	}
+	sc.Knobs.TTL = true
+	if sc.Knobs.MaxSteps < 5000 {
+		sc.Knobs.MaxSteps = 5000
+	}
+	for ci := range sc.Clients {
+		ttlProgram(r, ci, &sc.Clients[ci])
+	}
 }
 
 func genC08(rng *core.Rand, env *core.Env, run int) *Scenario {
@@ -789,6 +826,9 @@ func genC14(rng *core.Rand, env *core.Env, run int) *Scenario {
 		p.Cmds = append(p.Cmds, Cmd{Args: g.cmd()})
 	}
 	sc.Clients = []ClientProg{p}
+	if variant != "3-node-faulty" {
+		ttlShare(r, sc, av, ttlShareOf(env))
+	}
 	return sc
 }
 
